@@ -52,6 +52,65 @@ def classify_body(b):
     return "?"
 
 
+KIND_OF_CALL = {"form_task": "task", "form_sentence": "sentence", "form_term": "term", "err": "error", "parse_error": "error"}
+
+
+def kind_by_paths(ctx, item):
+    """K-KIND for a transform_mid_result that is not one match: every path of the loop-free MIR body (rules/pathval.py) is followed with the
+    presence of each slot it tests recorded as an assumption; the path's result -- the form_* / err call whose value is returned -- must be
+    the kind the statement demands for EVERY completion of the slots the path did not test.  Returns (description, None) or (None, why)."""
+    import pathval
+    f = ctx.facts
+    b = f.mir.get(item["path"])
+    if b is None:
+        return None, "no MIR body"
+
+    def slot_of(v):
+        # (*self).mid_result.<slot>
+        if v[0] == "field" and v[2] in SLOTS and v[1][0] == "field" and v[1][2] == "mid_result":
+            return v[2]
+        return None
+    res, why = pathval.paths(b, option_like=lambda v: slot_of(v) is not None)
+    if res is None:
+        return None, why
+    n = 0
+    for events, ret, nexts, valid, assumed in res:
+        asg = {}
+        for k_, val in assumed.items():
+            if k_[0] == "discr" and slot_of(k_[1]):
+                asg[slot_of(k_[1])] = (val == 1)
+            else:
+                return None, "a path depends on something other than slot presence (%s)" % (k_[0],)
+        kinds = set()
+
+        def scan(v):
+            if not isinstance(v, tuple):
+                return
+            if v and v[0] == "agg" and isinstance(v[1], str) and v[1].endswith("NarseseValue") and v[2] in ("Task", "Sentence", "Term"):
+                kinds.add(v[2].lower())
+            elif v and v[0] == "agg" and v[2] == "Err":
+                kinds.add("error")
+            elif v and v[0] == "call" and v[1] in KIND_OF_CALL:
+                kinds.add(KIND_OF_CALL[v[1]])
+            for x in (v[1:] if v and isinstance(v[0], str) else v):
+                if isinstance(x, tuple):
+                    scan(x)
+        scan(ret)
+        # NarseseValue::Task(form_task(..)) names its kind twice; anything naming two different kinds (or none) is not read
+        if len(kinds) != 1:
+            return None, "a path returns %s" % pathval.show(ret)
+        got = kinds.pop()
+        free = [s_ for s_ in SLOTS if s_ not in asg]
+        for bits in itertools.product([False, True], repeat=len(free)):
+            full = dict(asg, **dict(zip(free, bits)))
+            n += 1
+            if spec(full) != got:
+                return None, "slots %s -> %s, the statement demands %s" % ("".join(s_[0] if full[s_] else "-" for s_ in SLOTS), got, spec(full))
+    if n != 32:
+        return None, "%d of 32 slot assignments covered" % n
+    return "decision table proven on %d paths by path-sensitive evaluation of the MIR body (32 slot assignments)" % len(res), None
+
+
 def decision_table(ctx, name, m, slot_of_pos=None):
     """evaluate an ordered match over the five optional slots on all 32 presence assignments"""
     arms = []
@@ -111,18 +170,33 @@ def rule_K_KIND(ctx):
     ctx.rule("K-KIND", "result kind as a decision table over the five optional slots, identical in both parsers and equal to the statement: "
              "task <=> budget∧term∧punctuation; sentence <=> term∧punctuation∧¬budget; term <=> term∧¬punctuation; error <=> ¬term")
     tm = maps.enum_parser_fn(ctx, "transform_mid_result")
-    m = hir.top_match(tm)
-    sc = strip(m["scrut"])
-    pos = []
-    for e in sc["elems"]:
-        p = field_path(e)
-        pos.append(p[-1] if p else None)
-    ctx.ob("K-KIND", "transform_mid_result scrutinises the five slots", sorted(pos) == sorted(SLOTS), "%s" % pos)
-    if sorted(pos) == sorted(SLOTS):
-        try:
-            decision_table(ctx, "enum transform_mid_result", m, pos)
-        except Unrecognised as u:
-            ctx.unrecognised("K-KIND", "transform_mid_result", u.what)
+    try:
+        m = hir.top_match(tm)
+    except Unrecognised as u0:
+        # not written as one match over the slots: decide the table by evaluating the paths of the MIR body (cached `is_some()` flags, early
+        # returns, nested ifs ..); only a table PROVEN this way is accepted, anything else is the unrecognised idiom it was
+        proof, why = kind_by_paths(ctx, tm)
+        if proof:
+            ctx.ob("K-KIND", "transform_mid_result scrutinises the five slots", True, proof)
+            ctx.ob("K-KIND", "enum transform_mid_result: no arm is guarded (the kind depends on which slots are present, not on what they hold)", True, proof)
+            ctx.ob("K-KIND", "enum transform_mid_result decision table (32 slot assignments)", True, proof)
+            ctx.extra["k_kind_path_evaluation"] = proof
+            m = None
+        else:
+            ctx.extra["k_kind_path_evaluation"] = "not proven: %s" % why
+            raise u0
+    if m is not None:
+        sc = strip(m["scrut"])
+        pos = []
+        for e in sc["elems"]:
+            p = field_path(e)
+            pos.append(p[-1] if p else None)
+        ctx.ob("K-KIND", "transform_mid_result scrutinises the five slots", sorted(pos) == sorted(SLOTS), "%s" % pos)
+        if sorted(pos) == sorted(SLOTS):
+            try:
+                decision_table(ctx, "enum transform_mid_result", m, pos)
+            except Unrecognised as u:
+                ctx.unrecognised("K-KIND", "transform_mid_result", u.what)
     folds = [it for p, it in f.hir.items() if it["name"] == "fold" and "impl_lexical::parser" in p]
     if len(folds) != 1:
         raise AnchorMissing("lexical MidParseResult::fold")
